@@ -228,7 +228,7 @@ func SelfCheck() (ok bool, report []string) {
 		{"lost-update-locked", lostUpdate(true), []string{"ok:2"}, ""},
 		{"abba", abba(false), []string{"deadlock:", "ok:"}, "deadlock"},
 		{"abba-ordered", abba(true), []string{"ok:"}, ""},
-		{"double-close", doubleClose(false), []string{"ok+panic:"}, "ok+panic"},
+		{"double-close", doubleClose(false), []string{"ok+panic+race:"}, "ok+panic+race"},
 		{"double-close-once", doubleClose(true), []string{"ok:"}, ""},
 		{"missed-rendezvous", missedRendezvous(false), []string{"deadlock:-1", "ok:7"}, "deadlock"},
 		{"rendezvous", missedRendezvous(true), []string{"ok:7"}, ""},
